@@ -31,6 +31,10 @@ def execute(job):
     n, c, q, seed = job
     u = [1.0, 0.25, 1024.0][(n + seed) % 3]
     poses = poses_of(c, u)
+    if (n // 3) % 3 == 1:
+        poses = np.array(poses)                 # handed over as one (N, 4, 4) array
+    elif (n // 3) % 3 == 2:
+        poses = tuple(poses)
     unit = {"frames": metrics.Unit.frames, "meters": metrics.Unit.meters, "degrees": metrics.Unit.degrees,
             "radians": metrics.Unit.radians}[q["unit"]]
     delta = {"frames": q["d"], "meters": q["d"] * u, "degrees": float(q["d"]), "radians": math.radians(q["d"])}[q["unit"]]
